@@ -106,6 +106,10 @@ struct Sys {
     secp: Secp256k1<lightning_signer::bitcoin::secp256k1::All>,
     /// the harness's own record: a set-up request was accepted
     set_up: bool,
+    /// Some: the node runs on a persister that can refuse a channel write
+    fault: Option<Arc<vharness::FaultyPersister>>,
+    /// the choice code of the last request (so that the same request can be sent again)
+    last_choice: u64,
 }
 
 fn make_handler(node: &Arc<Node>, proto: u32, peer_id: [u8; 33], dbid: u64) -> ChannelHandler {
@@ -158,6 +162,10 @@ fn point_of(secp: &Secp256k1<lightning_signer::bitcoin::secp256k1::All>, s: &[u8
 
 impl Sys {
     fn new(case: usize, proto: u32, warn_tags: &[&str]) -> Sys {
+        Sys::new_on(case, proto, warn_tags, false)
+    }
+
+    fn new_on(case: usize, proto: u32, warn_tags: &[&str], faulty: bool) -> Sys {
         let mut policy = World::default_policy();
         policy.filter = PolicyFilter {
             // "!tag": an error rule for the tag placed AHEAD of the others (the first matching rule decides)
@@ -175,6 +183,7 @@ impl Sys {
         // every second case runs under the on-chain validator (what the daemon uses), with the
         // funding buried at set-up: it must then answer like the simple one
         world.onchain = case % 2 == 1;
+        let fault = if faulty { Some(world.make_faulty()) } else { None };
         let node = world.new_node();
         let node_id = node.get_id();
         let secp = Secp256k1::new();
@@ -183,7 +192,7 @@ impl Sys {
         let dbid = 1u64;
         let (channel_id, _) = node.new_channel(dbid, &peer_id, &node).expect("new_channel");
         let handler = make_handler(&node, proto, peer_id, dbid);
-        Sys { world, node, node_id, channel_id, peer_id, dbid, proto, handler, chan_ctx: None, secp, set_up: false }
+        Sys { world, node, node_id, channel_id, peer_id, dbid, proto, handler, chan_ctx: None, secp, set_up: false, fault, last_choice: 0 }
     }
 
     /// what the phase-1 entry point wants for holder commitment `n` with content `id`: the
@@ -692,6 +701,7 @@ fn do_op(sys: &mut Sys, rng: &mut Rng, extremes: bool, script: Option<(u64, u64)
         }
     };
     let guided = forced.is_some();
+    sys.last_choice = choice;
     match choice {
         // ---- holder validation (direct, phase 2)
         0..=17 => {
@@ -1167,6 +1177,92 @@ struct Monitor {
     closed_disclosed_snapshot: Option<Vec<u64>>,
 }
 
+/// one step of the implementation-side monitors for C01 / C02 / C03 (the properties themselves, on
+/// the implementation's answers).  [write_failed]: the request's channel write was refused by
+/// the store (the reply is an error; what the request did in memory stays)
+fn monitor_step(mon: &mut Monitor, sys: &Sys, warn_empty: bool, j: &serde_json::Value, o: &Obs, write_failed: bool) {
+    // monitors (the properties themselves, on the implementation's answers)
+    if o.st == "Ok" {
+        if let Some(arr) = j.as_array() {
+            let name = arr[0].as_str().unwrap_or("");
+            if (name == "validate_holder" || name.starts_with("HValidate")) && arr[3].as_bool() == Some(true) {
+                mon.validated.push(arr[1].as_u64().unwrap());
+            }
+        }
+    } else if let Some(arr) = j.as_array() {
+        // composite whose validation half succeeded although the reply is an error:
+        // the channel then holds the validated content
+        let name = arr[0].as_str().unwrap_or("");
+        if (name.starts_with("HValidate") || (write_failed && name == "validate_holder")) && arr[3].as_bool() == Some(true) {
+            if let Some(e) = sys.estate() {
+                let n = arr[1].as_u64().unwrap();
+                if e.next_holder_commit_num == n
+                    && e.next_holder_commit_info.as_ref().map(|(i, _)| content_id_of(i, true)) == arr[2].as_u64()
+                {
+                    mon.validated.push(n);
+                }
+            }
+        }
+    }
+    if let Some(k) = o.secret {
+        if !sys.set_up {
+            mon.violations.push(format!("C01: secret {} disclosed by a channel that was never set up (every set-up request was refused)", k));
+        }
+        if !mon.validated.contains(&k.wrapping_add(1)) && warn_empty {
+            mon.violations.push(format!("C01: secret {} disclosed but {} was never accepted with valid signatures", k, k + 1));
+        }
+        if mon.hsigned.contains(&k) && warn_empty {
+            mon.violations.push(format!("C02: secret {} disclosed after commitment {} was signed for broadcast", k, k));
+        }
+        if let Some(snap) = &mon.closed_disclosed_snapshot {
+            if !snap.contains(&k) && warn_empty {
+                mon.violations.push(format!("C02: new secret {} disclosed after a holder signature was released", k));
+            }
+        }
+        mon.disclosed.push(k);
+    }
+    if let Some((n, _)) = o.hsig {
+        if mon.disclosed.contains(&n) && warn_empty {
+            mon.violations.push(format!("C02: commitment {} signed for broadcast after its secret was disclosed", n));
+        }
+        mon.hsigned.push(n);
+        if mon.closed_disclosed_snapshot.is_none() {
+            mon.closed_disclosed_snapshot = Some(mon.disclosed.clone());
+        }
+    }
+    if let Some((n, p, c)) = o.cpsig {
+        // C03: window and re-sign-same
+        if let Some(e) = sys.estate() {
+            if warn_empty && n > e.next_counterparty_revoke_num + 1 {
+                mon.violations.push(format!("C03: signed counterparty commitment {} with next_revoke {}", n, e.next_counterparty_revoke_num));
+            }
+        }
+        if warn_empty {
+            if let Some((_, p0, c0)) = mon.cp_signed.iter().rev().find(|(m, _, _)| *m == n) {
+                if *p0 != p || *c0 != c {
+                    mon.violations.push(format!("C03: re-signed counterparty commitment {} with different point/content", n));
+                }
+            }
+        }
+        // C03, on the monitor's own record of accepted revocations (not the signer's counter)
+        if warn_empty && n >= 2 && !mon.cp_signed.iter().any(|(m, _, _)| *m == n) && !mon.cp_revoked.contains(&(n - 2)) {
+            mon.violations.push(format!("C03: signed counterparty commitment {} although {} was never revoked by an accepted secret", n, n - 2));
+        }
+        mon.cp_signed.push((n, p, c));
+    }
+    if let Some(arr) = j.as_array() {
+        if arr[0] == "validate_revocation" && o.st == "Ok" && warn_empty {
+            let rn = arr[1].as_u64().unwrap();
+            let sec = arr[2].as_u64().unwrap();
+            // the accepted secret must be the secret of the point signed for rn
+            match mon.cp_signed.iter().rev().find(|(m, _, _)| *m == rn) {
+                Some((_, p, _)) if *p == 1000 + sec => {}
+                _ => mon.violations.push(format!("C03: accepted revocation of {} with the secret of point {}", rn, 1000 + sec)),
+            }
+            mon.cp_revoked.push(rn);
+        }
+    }}
+
 fn run(args: &Args) {
     // panics inside the code under test are observations (Abort), not noise
     if std::env::var("VERIF_SHOW_PANICS").is_err() {
@@ -1248,87 +1344,7 @@ fn run(args: &Args) {
                 "Refused" => e.1 += 1,
                 _ => e.2 += 1,
             }
-            // monitors (the properties themselves, on the implementation's answers)
-            if o.st == "Ok" {
-                if let Some(arr) = j.as_array() {
-                    let name = arr[0].as_str().unwrap_or("");
-                    if (name == "validate_holder" || name.starts_with("HValidate")) && arr[3].as_bool() == Some(true) {
-                        mon.validated.push(arr[1].as_u64().unwrap());
-                    }
-                }
-            } else if let Some(arr) = j.as_array() {
-                // composite whose validation half succeeded although the reply is an error:
-                // the channel then holds the validated content
-                let name = arr[0].as_str().unwrap_or("");
-                if name.starts_with("HValidate") && arr[3].as_bool() == Some(true) {
-                    if let Some(e) = sys.estate() {
-                        let n = arr[1].as_u64().unwrap();
-                        if e.next_holder_commit_num == n
-                            && e.next_holder_commit_info.as_ref().map(|(i, _)| content_id_of(i, true)) == arr[2].as_u64()
-                        {
-                            mon.validated.push(n);
-                        }
-                    }
-                }
-            }
-            if let Some(k) = o.secret {
-                if !sys.set_up {
-                    mon.violations.push(format!("C01: secret {} disclosed by a channel that was never set up (every set-up request was refused)", k));
-                }
-                if !mon.validated.contains(&k.wrapping_add(1)) && warn.is_empty() {
-                    mon.violations.push(format!("C01: secret {} disclosed but {} was never accepted with valid signatures", k, k + 1));
-                }
-                if mon.hsigned.contains(&k) && warn.is_empty() {
-                    mon.violations.push(format!("C02: secret {} disclosed after commitment {} was signed for broadcast", k, k));
-                }
-                if let Some(snap) = &mon.closed_disclosed_snapshot {
-                    if !snap.contains(&k) && warn.is_empty() {
-                        mon.violations.push(format!("C02: new secret {} disclosed after a holder signature was released", k));
-                    }
-                }
-                mon.disclosed.push(k);
-            }
-            if let Some((n, _)) = o.hsig {
-                if mon.disclosed.contains(&n) && warn.is_empty() {
-                    mon.violations.push(format!("C02: commitment {} signed for broadcast after its secret was disclosed", n));
-                }
-                mon.hsigned.push(n);
-                if mon.closed_disclosed_snapshot.is_none() {
-                    mon.closed_disclosed_snapshot = Some(mon.disclosed.clone());
-                }
-            }
-            if let Some((n, p, c)) = o.cpsig {
-                // C03: window and re-sign-same
-                if let Some(e) = sys.estate() {
-                    if warn.is_empty() && n > e.next_counterparty_revoke_num + 1 {
-                        mon.violations.push(format!("C03: signed counterparty commitment {} with next_revoke {}", n, e.next_counterparty_revoke_num));
-                    }
-                }
-                if warn.is_empty() {
-                    if let Some((_, p0, c0)) = mon.cp_signed.iter().rev().find(|(m, _, _)| *m == n) {
-                        if *p0 != p || *c0 != c {
-                            mon.violations.push(format!("C03: re-signed counterparty commitment {} with different point/content", n));
-                        }
-                    }
-                }
-                // C03, on the monitor's own record of accepted revocations (not the signer's counter)
-                if warn.is_empty() && n >= 2 && !mon.cp_signed.iter().any(|(m, _, _)| *m == n) && !mon.cp_revoked.contains(&(n - 2)) {
-                    mon.violations.push(format!("C03: signed counterparty commitment {} although {} was never revoked by an accepted secret", n, n - 2));
-                }
-                mon.cp_signed.push((n, p, c));
-            }
-            if let Some(arr) = j.as_array() {
-                if arr[0] == "validate_revocation" && o.st == "Ok" && warn.is_empty() {
-                    let rn = arr[1].as_u64().unwrap();
-                    let sec = arr[2].as_u64().unwrap();
-                    // the accepted secret must be the secret of the point signed for rn
-                    match mon.cp_signed.iter().rev().find(|(m, _, _)| *m == rn) {
-                        Some((_, p, _)) if *p == 1000 + sec => {}
-                        _ => mon.violations.push(format!("C03: accepted revocation of {} with the secret of point {}", rn, 1000 + sec)),
-                    }
-                    mon.cp_revoked.push(rn);
-                }
-            }
+            monitor_step(&mut mon, &sys, warn.is_empty(), &j, &o, false);
             ops.push(op);
             jops.push(json!({"op": j, "st": o.st, "point": o.point, "secret": o.secret}));
             if o.st == "Abort" {
@@ -1353,11 +1369,109 @@ fn run(args: &Args) {
     emit("STATS", json!({"kind": "chan", "ops": kinds_json, "monitor_violations": n_viol}));
 }
 
+/// Histories in which the store refuses a channel write now and then - a crash at the very point
+/// where a request writes the channel: the request answers with an error, what it did in memory
+/// stays ahead of the store.  What follows is the same request again (the node retries), a
+/// restart (the process was gone), or just the next request.  The models know nothing about a
+/// failing store: only the monitors of C01 / C02 / C03 decide here, on the replies alone.
+fn run_faulty(args: &Args) {
+    if std::env::var("VERIF_SHOW_PANICS").is_err() {
+        std::panic::set_hook(Box::new(|_| {}));
+    }
+    let mut rng = Rng::new(args.seed ^ 0xfa17);
+    let max_len = if args.tier == "thorough" { 44 } else { 32 };
+    let mut n_viol = 0u64;
+    let (mut n_failed, mut n_retried, mut n_restarted, mut n_retry_ok, mut n_ok_despite) = (0u64, 0u64, 0u64, 0u64, 0u64);
+    // scripted: (choice, number) per step; 1000 + choice = the store refuses this request's channel write
+    let corpus: Vec<(u32, Vec<(u64, u64)>)> = vec![
+        // successor validated ahead, the write of the force-close signature fails, the node asks again, restart, revoke
+        (5, vec![(99, 0), (0, 0), (30, 0), (53, 0), (0, 1), (18, 1), (53, 1), (0, 2), (1047, 1), (47, 1), (99, 0), (18, 2), (95, 1)]),
+        (6, vec![(99, 0), (0, 0), (30, 0), (53, 0), (0, 1), (95, 0), (0, 2), (1047, 1), (47, 1), (47, 1), (99, 0), (95, 1), (18, 2)]),
+        // the write of the revocation fails, restart, the old commitment is signed for broadcast, revoke again
+        (5, vec![(99, 0), (0, 0), (30, 0), (53, 0), (0, 1), (1018, 1), (99, 0), (47, 0), (18, 1), (95, 0)]),
+        (5, vec![(99, 0), (0, 0), (30, 0), (53, 0), (0, 1), (1018, 1), (18, 1), (47, 0), (99, 0), (47, 0), (47, 1)]),
+        // the write of a validation fails; the same again; revoke
+        (5, vec![(99, 0), (0, 0), (30, 0), (53, 0), (1000, 1), (18, 1), (99, 0), (18, 1), (0, 1), (18, 1)]),
+    ];
+    for case in 0..args.n {
+        let script: Option<Vec<(u64, u64)>> = corpus.get(case).map(|c| c.1.clone());
+        let proto = corpus.get(case).map(|c| c.0).unwrap_or(*rng.pick(&[4u32, 5, 6, 6]));
+        let mut sys = Sys::new_on(case, proto, &[], true);
+        let fp = sys.fault.clone().expect("faulty world");
+        let len = script.as_ref().map(|s| s.len()).unwrap_or(6 + rng.below(max_len) as usize);
+        let mut mon = Monitor::default();
+        let mut jops = vec![];
+        let mut again: Option<(u64, u64)> = None;
+        let mut aborted = false;
+        for step_no in 0..len {
+            let mut scripted = script.as_ref().and_then(|s| s.get(step_no).copied());
+            let mut arm = false;
+            if let Some((c, n)) = scripted {
+                if c >= 1000 {
+                    arm = true;
+                    scripted = Some((c - 1000, n));
+                }
+            } else if let Some(a) = again.take() {
+                scripted = Some(a);
+            } else if sys.is_ready() && rng.chance(1, 5) {
+                arm = true;
+            }
+            if arm {
+                fp.arm();
+            }
+            let fired_before = fp.fired();
+            let was_retry = scripted.is_some() && script.is_none();
+            let (op, j, o) = do_op(&mut sys, &mut rng, true, scripted);
+            fp.disarm();
+            let write_failed = fp.fired() > fired_before;
+            if was_retry && o.st == "Ok" {
+                n_retry_ok += 1;
+            }
+            monitor_step(&mut mon, &sys, true, &j, &o, write_failed);
+            jops.push(json!({"op": j, "st": o.st, "point": o.point, "secret": o.secret, "channel_write_refused": write_failed}));
+            if o.st == "Abort" {
+                aborted = true;
+                break;
+            }
+            if write_failed {
+                n_failed += 1;
+                if o.st == "Ok" {
+                    n_ok_despite += 1;
+                }
+                if script.is_none() {
+                    match rng.below(5) {
+                        0 | 1 => {
+                            // the node asks again
+                            let n = op.split(' ').nth(1).and_then(|x| x.parse::<u64>().ok()).unwrap_or(0);
+                            again = Some((sys.last_choice, n));
+                            n_retried += 1;
+                        }
+                        2 | 3 => {
+                            again = Some((99, 0));
+                            n_restarted += 1;
+                        }
+                        _ => {}
+                    }
+                }
+            }
+        }
+        n_viol += mon.violations.len() as u64;
+        emit(
+            "FCASE",
+            json!({"id": case, "proto": proto, "aborted": aborted, "ops": jops, "monitor_violations": mon.violations,
+                   "disclosed": mon.disclosed, "hsigned": mon.hsigned}),
+        );
+    }
+    emit("STATS", json!({"kind": "chan-faulty", "channel_writes_refused": n_failed, "then_same_request_again": n_retried,
+                         "same_request_again_answered_ok": n_retry_ok, "then_restart": n_restarted, "answered_ok_although_a_write_was_refused": n_ok_despite, "monitor_violations": n_viol}));
+}
+
 fn main() {
     let argv: Vec<String> = std::env::args().collect();
     let args = parse_args(&argv[2..]);
     match argv[1].as_str() {
         "run" => run(&args),
+        "faulty" => run_faulty(&args),
         other => panic!("unknown sub-domain {}", other),
     }
 }
